@@ -47,7 +47,8 @@ def main():
     root = sys.argv[1]
     jobs = int(sys.argv[sys.argv.index('--jobs') + 1]) if '--jobs' in sys.argv else 14
     patches = sorted(glob.glob(os.path.join(root, '*', '*', 'patch.diff')))
-    tasks = [(p, pid) for p in patches for pid in IDS]
+    only = sys.argv[sys.argv.index('--only') + 1].split(',') if '--only' in sys.argv else IDS
+    tasks = [(p, pid) for p in patches for pid in IDS if pid in only]
     with multiprocessing.Pool(jobs) as pool:
         res = pool.map(work, tasks, chunksize=4)
     by = {}
